@@ -331,6 +331,9 @@ pub fn micro_h() -> Vec<HShape> {
         sh(&[None, None], &[2, 2], &[Idle, Idle], &[&[Drain(0)], &[Link(1, 0), Unlink(1, 0)]]),
         // 9: two exits at once: parent and child both fail, grandchild linked meanwhile
         sh(&[None, Some(0), None], &[2, 2, 2], &[Fail, Fail, Idle], &[&[Link(2, 1)]]),
+        // 10: a child already taken by the sweep is relinked under a sibling the sweep has not reached yet:
+        // it is found and visited a second time
+        sh(&[None, Some(0), Some(0)], &[2, 2, 2], &[Fail, Idle, Idle], &[&[Link(2, 1)], &[Link(1, 2)]]),
     ]
 }
 
@@ -751,7 +754,7 @@ fn dfs<F: FnMut(&mut Explorer) -> (Vec<Value>, Value, bool)>(acc: &mut Acc, boun
 
 pub fn batch_h(out: &str, tier: &str, seed: u64) -> Value {
     let mut acc = Acc { b: Batch::new(Some(out)), nontrivial: Default::default(), bad_runs: 0 };
-    let (dfs_cap, nrand, per) = if tier == "thorough" { (5000usize, 4000usize, 4usize) } else { (300usize, 500usize, 2usize) };
+    let (dfs_cap, nrand, per) = if tier == "thorough" { (5000usize, 4000usize, 4usize) } else { (300usize, 1000usize, 2usize) };
     for (i, shp) in micro_h().iter().enumerate() {
         let gen = json!({"kind": "hmicro", "idx": i});
         for bound in [1u32, 2u32] {
@@ -777,7 +780,7 @@ pub fn batch_h(out: &str, tier: &str, seed: u64) -> Value {
 
 pub fn batch_t(out: &str, tier: &str, seed: u64) -> Value {
     let mut acc = Acc { b: Batch::new(Some(out)), nontrivial: Default::default(), bad_runs: 0 };
-    let (dfs_cap, nrand, per) = if tier == "thorough" { (2500usize, 3000usize, 3usize) } else { (120usize, 250usize, 2usize) };
+    let (dfs_cap, nrand, per) = if tier == "thorough" { (2500usize, 3000usize, 3usize) } else { (150usize, 500usize, 2usize) };
     for (i, sc) in micro_t().iter().enumerate() {
         let gen = json!({"kind": "tmicro", "idx": i});
         dfs(&mut acc, 2, dfs_cap, seed, |ex| one_run_t(sc, ex, &gen));
